@@ -4,10 +4,15 @@ import (
 	"encoding/json"
 	"fmt"
 	"sort"
+	"strconv"
 	"strings"
 	"sync"
 	"testing"
 
+	"go.opentelemetry.io/collector/pdata/pcommon"
+	"go.opentelemetry.io/collector/pdata/plog"
+	"go.opentelemetry.io/collector/pdata/pmetric"
+	"go.opentelemetry.io/collector/pdata/ptrace"
 	"pgregory.net/rapid"
 
 	"verif/kit"
@@ -19,6 +24,69 @@ import (
 // consumer.
 type GroupCase struct {
 	Streams []StreamCase `json:"streams"`
+	// Crowd > 0: after every stream has sent its first batch, Crowd short-lived
+	// neighbour streams (one small batch each, attribute layouts varying with
+	// the index, see neighbour) are run by 8 goroutines while the streams are
+	// idle; then the streams resume. "Any number of producer/consumer pairs":
+	// hundreds of instances come and go during the life of a stream.
+	Crowd int `json:"crowd,omitempty"`
+}
+
+// neighbour builds the i-th short-lived stream of a crowd.
+func neighbour(i int) *StreamCase {
+	put := func(m pcommon.Map) {
+		m.PutStr("s", "n"+strconv.Itoa(i))
+		switch (i / 3) % 6 {
+		case 0:
+			m.PutInt("v", int64(i))
+		case 1:
+			m.PutDouble("v", float64(i)+0.5)
+		case 2:
+			m.PutBool("v", i%2 == 0)
+		case 3:
+			m.PutEmptyBytes("v").FromRaw([]byte{byte(i), 1})
+		case 4:
+			m.PutEmptySlice("v").AppendEmpty().SetInt(int64(i))
+		default:
+			m.PutInt("v", int64(i))
+			m.PutDouble("w", 1.5)
+		}
+	}
+	switch i % 3 {
+	case 0:
+		td := ptrace.NewTraces()
+		rs := td.ResourceSpans().AppendEmpty()
+		put(rs.Resource().Attributes())
+		ss := rs.ScopeSpans().AppendEmpty()
+		put(ss.Scope().Attributes())
+		sp := ss.Spans().AppendEmpty()
+		sp.SetName("n")
+		put(sp.Attributes())
+		put(sp.Events().AppendEmpty().Attributes())
+		return &StreamCase{Batches: []Batch{TracesBatch(td)}}
+	case 1:
+		ld := plog.NewLogs()
+		rl := ld.ResourceLogs().AppendEmpty()
+		put(rl.Resource().Attributes())
+		sl := rl.ScopeLogs().AppendEmpty()
+		put(sl.Scope().Attributes())
+		l := sl.LogRecords().AppendEmpty()
+		l.Body().SetStr("n")
+		put(l.Attributes())
+		return &StreamCase{Batches: []Batch{LogsBatch(ld)}}
+	default:
+		md := pmetric.NewMetrics()
+		rm := md.ResourceMetrics().AppendEmpty()
+		put(rm.Resource().Attributes())
+		sm := rm.ScopeMetrics().AppendEmpty()
+		put(sm.Scope().Attributes())
+		m := sm.Metrics().AppendEmpty()
+		m.SetName("n")
+		dp := m.SetEmptyGauge().DataPoints().AppendEmpty()
+		dp.SetIntValue(int64(i))
+		put(dp.Attributes())
+		return &StreamCase{Batches: []Batch{MetricsBatch(md)}}
+	}
 }
 
 // streamOutcome is what one stream produced, batch by batch.
@@ -27,9 +95,26 @@ type streamOutcome struct {
 	canon [][]string
 }
 
-func runAlone(c *StreamCase) streamOutcome {
+func runAlone(c *StreamCase) streamOutcome { return runStreamOutcome(c, nil) }
+
+// wantLines is the outcome of a stream that round-trips exactly (used for the
+// simple neighbour streams of a crowd).
+func (c *StreamCase) wantLines() []string {
+	var ls []string
+	for _, b := range c.Batches {
+		in, err := b.Decode()
+		if err != nil {
+			return []string{"harness: " + err.Error()}
+		}
+		w := in.Canon()
+		ls = append(ls, fmt.Sprintf("ok %d items %016x", len(w), kit.Hash64(w...)))
+	}
+	return ls
+}
+
+func runStreamOutcome(c *StreamCase, afterBatch func(int)) streamOutcome {
 	var o streamOutcome
-	res, err := RunStream(c, RunConfig{Decode: true, StopAtDecodeFail: true})
+	res, err := RunStream(c, RunConfig{Decode: true, StopAtDecodeFail: true, AfterBatch: afterBatch})
 	if err != nil {
 		o.lines = append(o.lines, "harness: "+err.Error())
 		return o
@@ -64,16 +149,74 @@ func groupVerdict(g *GroupCase) string {
 	got := make([]streamOutcome, len(g.Streams))
 	var wg sync.WaitGroup
 	start := make(chan struct{})
+	// crowd phase: every stream reports when its first batch is through (or
+	// when it ended earlier) and then waits until the crowd has come and gone
+	var firstDone sync.WaitGroup
+	crowdGone := make(chan struct{})
 	for i := range g.Streams {
 		wg.Add(1)
+		firstDone.Add(1)
 		go func(i int) {
 			defer wg.Done()
+			var once sync.Once
+			defer once.Do(firstDone.Done)
 			<-start
-			got[i] = runAlone(&g.Streams[i])
+			var hook func(int)
+			if g.Crowd > 0 {
+				hook = func(k int) {
+					if k == 0 {
+						once.Do(firstDone.Done)
+						<-crowdGone
+					}
+				}
+			}
+			got[i] = runStreamOutcome(&g.Streams[i], hook)
 		}(i)
 	}
 	close(start)
+	crowdBad, crowdLines := -1, []string(nil)
+	if g.Crowd > 0 {
+		firstDone.Wait()
+		var cw sync.WaitGroup
+		var mu sync.Mutex
+		next := 0
+		for w := 0; w < 8; w++ {
+			cw.Add(1)
+			go func() {
+				defer cw.Done()
+				for {
+					mu.Lock()
+					i := next
+					next++
+					mu.Unlock()
+					if i >= g.Crowd {
+						return
+					}
+					nb := neighbour(i)
+					among := runStreamOutcome(nb, nil)
+					want := nb.wantLines()
+					if strings.Join(among.lines, "|") != strings.Join(want, "|") {
+						mu.Lock()
+						if crowdBad < 0 {
+							crowdBad, crowdLines = i, among.lines
+						}
+						mu.Unlock()
+					}
+				}
+			}()
+		}
+		cw.Wait()
+	}
+	close(crowdGone)
 	wg.Wait()
+	if crowdBad >= 0 {
+		// a neighbour's output differed from its input: only a C16 matter if it
+		// does not differ when the neighbour runs alone
+		alone := runStreamOutcome(neighbour(crowdBad), nil)
+		if strings.Join(alone.lines, "|") == strings.Join(neighbour(crowdBad).wantLines(), "|") {
+			return fmt.Sprintf("neighbour %d of the crowd: among %d streams %q, alone %q", crowdBad, len(g.Streams)+g.Crowd, crowdLines, alone.lines)
+		}
+	}
 	for i := range g.Streams {
 		a, b := refs[i], got[i]
 		if len(a.lines) != len(b.lines) {
@@ -85,7 +228,7 @@ func groupVerdict(g *GroupCase) string {
 				if k < len(a.canon) && k < len(b.canon) {
 					d = canon.Diff(a.canon[k], b.canon[k])
 				}
-				return fmt.Sprintf("stream %d batch %d: alone %q, concurrently with %d other streams %q\n%s", i, k, a.lines[k], len(g.Streams)-1, b.lines[k], d)
+				return fmt.Sprintf("stream %d batch %d: alone %q, concurrently with %d other streams (and a crowd of %d short-lived ones after the first batch) %q\n%s", i, k, a.lines[k], len(g.Streams)-1, g.Crowd, b.lines[k], d)
 			}
 		}
 	}
@@ -99,6 +242,12 @@ func TestC16(t *testing.T) {
 	rapid.Check(t, func(t *rapid.T) {
 		n := rapid.IntRange(2, 8).Draw(t, "nstreams")
 		g := &GroupCase{}
+		minb := 1
+		if pct(t, "crowd", 15) {
+			g.Crowd = rapid.SampledFrom([]int{400, 300, 600, 100}).Draw(t, "crowdn")
+			minb = 2
+			n = rapid.IntRange(1, 4).Draw(t, "crowdstreams")
+		}
 		var shapes []string
 		sameOpts := rapid.Bool().Draw(t, "sameopts")
 		var shared Options
@@ -115,7 +264,7 @@ func TestC16(t *testing.T) {
 				// With*LimitDictIndex capacities, set through a custom Option
 				o.Dict = "custom:" + rapid.SampledFrom([]string{"300", "1000", "10", "70000", "1", "255", "256"}).Draw(t, "customn")
 			}
-			c, _ := genOptionHistory(t, historyPlan{MinBatches: 1, MaxBatches: 5, Interleave: true, Knobs: gen.InDomain()})
+			c, _ := genOptionHistory(t, historyPlan{MinBatches: minb, MaxBatches: 5, Interleave: true, Knobs: gen.InDomain()})
 			c.Options = o
 			g.Streams = append(g.Streams, *c)
 			shapes = append(shapes, fmt.Sprintf("%s/%d", o.String(), len(c.Batches)))
@@ -125,6 +274,10 @@ func TestC16(t *testing.T) {
 		labels := []string{fmt.Sprintf("streams=%d", n)}
 		if sameOpts {
 			labels = append(labels, "same_options_all_streams")
+		}
+		if g.Crowd > 0 {
+			labels = append(labels, "crowd_of_short_lived_neighbours", fmt.Sprintf("crowd=%d", g.Crowd))
+			shapes = append(shapes, fmt.Sprintf("crowd%d", g.Crowd))
 		}
 		rec.Case(true, strings.Join(shapes, "|"), labels, func() any {
 			return map[string]any{"streams": len(g.Streams), "options_and_batches": shapes}
